@@ -54,7 +54,7 @@ type d4Op struct {
 
 func genD4Ops() *rapid.Generator[[]d4Op] {
 	bag := []d4Kind{d4Discover, d4Discover, d4Discover, d4Discover, d4Discover, d4Request, d4Request, d4Request, d4Request, d4Request, d4Request,
-		d4Reassign, d4Reassign, d4Release, d4Release, d4Decline, d4Decline, d4Decline, d4GiveUpOffer, d4GiveUpOffer}
+		d4Reassign, d4Reassign, d4Reassign, d4Release, d4Release, d4Decline, d4Decline, d4Decline, d4GiveUpOffer, d4GiveUpOffer}
 	one := rapid.Custom(func(t *rapid.T) d4Op {
 		return d4Op{
 			K: rapid.SampledFrom(bag).Draw(t, "kind"),
@@ -245,7 +245,7 @@ func d4Run(ft fataler, cfg pools.DHCP4Cfg, ops []d4Op) (*model, []string) {
 				continue
 			}
 			ip := lease[old]
-			if m.has[nw] == "" && op.V%4 == 0 {
+			if m.has[nw] == "" && op.V%2 == 0 {
 				// the replacement CPE first DISCOVERs without relay information and is offered an address of its own
 				if off, err := p.Allocate(pools.MacOf(nw)); err == nil {
 					m.logf("discover(%s)=%v,ok", nw, off)
